@@ -62,7 +62,7 @@ checks.update({
 
  "C20": dict(cat="model_checking", engine="kvmc", ref="6 C20",
    technique="explicit-state search TO A FIXPOINT over canonical post-compaction layouts of the real KVStore (bursts of operations followed by compaction until done); closure of the state space proves the bounds for workloads of any length over the alphabet",
-   text="States are post-compaction store layouts in canonical form; a transition is any burst of 1..3 (quick) / 1..4 (thorough) operations from {Put or PutRaw(k,size), Delete(k)} over 2 (quick) / 3 (thorough) keys and two sizes, followed by Compaction() until done; primary (Put) and backup (PutRaw) mode, idle-table timeout 0 and 15 minutes. After every burst: inuse+garbage=offset per table, sum of inuse = live bytes, Length = live keys. On every post-compaction state: no live table at or above the 40% garbage threshold, tables <= live keys + 2, recycled tables released when the timeout is 0. The search runs until no burst produces a new state (fixpoint), which it does on the current tree.",
+   text="States are post-compaction store layouts in canonical form; a transition is any burst of 1..3 (quick) / 1..4 (thorough) operations from {Put or PutRaw(k,size), Delete(k)} over 2 (quick) / 3 (thorough) keys and two sizes, followed by Compaction() until done; primary (Put) and backup (PutRaw) mode, idle-table timeout 0 and 15 minutes. After every burst: inuse+garbage=offset per table, sum of inuse = live bytes, Length = live keys. On every post-compaction state: no live table at or above the 40% garbage threshold, tables <= live keys + 2, recycled tables released when the timeout is 0. The search runs until no burst produces a new state (fixpoint), which it does on the current tree. Cluster part: BFS over Put / Delete / compaction pass (the real compaction worker body on every member for every partition) on a replicated cluster with 128-byte tables; after every pass every primary and backup fragment on every member is within the same bounds.",
    note="soundness of the closure argument rests on kvmc.Canon (documented there): layout, numbering gaps and per-key version order are kept, absolute coefficients/timestamps/last-access dropped; ttl-expiry churn is represented by Delete (the store never interprets ttl)"),
 
  "C16": dict(cat="exploration", engine="inputmc", ref="6 C16",
